@@ -40,6 +40,8 @@ type XEntry struct {
 	Pkgs  []Pkg  `json:"pkgs,omitempty"`
 	Err   bool   `json:"err,omitempty"`
 	Panic bool   `json:"panic,omitempty"`
+	// SharedLocs: all packages of this entry share ONE Locations slice object (as lockfile extractors do)
+	SharedLocs bool `json:"shared_locs,omitempty"`
 }
 
 // StatReq: the extractor's FileRequired additionally consults api.Stat(): required only if Stat succeeds and
@@ -121,9 +123,11 @@ type Case struct {
 	Cancel    Cancel      `json:"cancel"`
 	// OnDisk: the (single, fault-free, regular-files-only) root is materialised in a temporary directory and scanned
 	// through scalibrfs.DirFS with a real ScanRoot.Path; DirsToSkip / PathsToExtract are given as absolute paths.
-	OnDisk bool   `json:"on_disk,omitempty"`
-	Note   string `json:"note,omitempty"`
-	Obs    Obs    `json:"obs"`
+	OnDisk bool `json:"on_disk,omitempty"`
+	// StoreAbs: Config.StoreAbsolutePath with the (in-memory) scan root carrying the path /vroot
+	StoreAbs bool   `json:"store_abs,omitempty"`
+	Note     string `json:"note,omitempty"`
+	Obs      Obs    `json:"obs"`
 }
 
 // ---------------------------------------------------------------- recorder, fakes
@@ -194,8 +198,16 @@ func (e *fakeExt) Extract(_ context.Context, in *filesystem.ScanInput) (inventor
 		m["boom"] = 1 // a parser bug
 	}
 	inv := inventory.Inventory{}
+	var shared []string
+	if x.SharedLocs && len(x.Pkgs) > 0 {
+		shared = append([]string(nil), x.Pkgs[0].Locs...)
+	}
 	for _, p := range x.Pkgs {
-		inv.Packages = append(inv.Packages, &extractor.Package{Name: p.Name, Version: p.Version, Locations: append([]string(nil), p.Locs...)})
+		locs := append([]string(nil), p.Locs...)
+		if x.SharedLocs {
+			locs = shared
+		}
+		inv.Packages = append(inv.Packages, &extractor.Package{Name: p.Name, Version: p.Version, Locations: locs})
 	}
 	if x.Err {
 		return inv, errExtract
@@ -205,15 +217,18 @@ func (e *fakeExt) Extract(_ context.Context, in *filesystem.ScanInput) (inventor
 
 // ---------------------------------------------------------------- running the implementation
 
+const vroot = "/vroot"
+
 type setup struct {
-	tmp   string // on-disk cases: the directory the root was materialised in
-	hits  int
-	rec   *recorder
-	ctx   context.Context
-	exts  []filesystem.Extractor
-	roots []*scalibrfs.ScanRoot
-	re    *regexp.Regexp
-	gl    glob.Glob
+	virtual bool   // tmp is not a real directory
+	tmp     string // on-disk cases: the directory the root was materialised in
+	hits    int
+	rec     *recorder
+	ctx     context.Context
+	exts    []filesystem.Extractor
+	roots   []*scalibrfs.ScanRoot
+	re      *regexp.Regexp
+	gl      glob.Glob
 }
 
 func (c *Case) setup() *setup {
@@ -257,8 +272,14 @@ func (c *Case) setup() *setup {
 		reorderAsListed(tmp, c.Roots[0])
 		s.roots = append(s.roots, &scalibrfs.ScanRoot{FS: scalibrfs.DirFS(tmp), Path: tmp})
 	} else {
+		rootPath := ""
+		if c.StoreAbs && len(c.Roots) == 1 {
+			rootPath = vroot
+			s.tmp = vroot
+			s.virtual = true
+		}
 		for _, r := range c.Roots {
-			s.roots = append(s.roots, &scalibrfs.ScanRoot{FS: &memFS{root: r, patFiles: c.PatFiles, hits: &s.hits}, Path: ""})
+			s.roots = append(s.roots, &scalibrfs.ScanRoot{FS: &memFS{root: r, patFiles: c.PatFiles, hits: &s.hits}, Path: rootPath})
 		}
 	}
 	if c.Regex != nil {
@@ -287,7 +308,7 @@ func (s *setup) abs(ps []string) []string {
 }
 
 func (s *setup) cleanup() {
-	if s.tmp != "" {
+	if s.tmp != "" && !s.virtual {
 		os.RemoveAll(s.tmp)
 	}
 }
@@ -416,7 +437,7 @@ func runCase(c *Case, withScan bool) {
 			Extractors: s.exts, ScanRoots: s.roots, PathsToExtract: s.abs(c.Paths), IgnoreSubDirs: c.IgnoreSub,
 			DirsToSkip: s.abs(c.SkipList), SkipDirRegex: s.re, SkipDirGlob: s.gl, UseGitignore: c.Gitignore,
 			Stats: collector{rec: s.rec}, ReadSymlinks: c.Symlinks, MaxInodes: c.MaxInodes, MaxFileSize: c.MaxSize,
-			ErrorOnFSErrors: c.Fatal,
+			ErrorOnFSErrors: c.Fatal, StoreAbsolutePath: c.StoreAbs,
 		})
 		c.Obs.Class = classify(err)
 		if err != nil {
@@ -446,7 +467,7 @@ func runCase(c *Case, withScan bool) {
 			FilesystemExtractors: s2.exts, Detectors: c.detectors(), Capabilities: &plugin.Capabilities{}, ScanRoots: s2.roots,
 			PathsToExtract: s2.abs(c.Paths), IgnoreSubDirs: c.IgnoreSub, DirsToSkip: s2.abs(c.SkipList), SkipDirRegex: s2.re,
 			SkipDirGlob: s2.gl, MaxFileSize: c.MaxSize, UseGitignore: c.Gitignore, Stats: collector{rec: s2.rec},
-			ReadSymlinks: c.Symlinks, MaxInodes: c.MaxInodes, ErrorOnFSErrors: c.Fatal,
+			ReadSymlinks: c.Symlinks, MaxInodes: c.MaxInodes, ErrorOnFSErrors: c.Fatal, StoreAbsolutePath: c.StoreAbs,
 		})
 		c.Obs.Scan.Failed = res.Status.Status != plugin.ScanStatusSucceeded
 		c.Obs.Scan.Inv = invObs(res.Inventory.Packages)
@@ -459,7 +480,7 @@ func runCase(c *Case, withScan bool) {
 
 // ---------------------------------------------------------------- Coq printing
 
-var namePool = []string{"a", "b", "c", "d.txt", "e f", "-g", ".h", "pkg.json", "x.lock", "lib", "src", "node_modules", "z", "ab", "lib64", "srcs"}
+var namePool = []string{"a", "b", "c", "d.txt", "e f", "-g", ".h", "pkg.json", "x.lock", "lib", "src", "node_modules", "z", "ab", "lib64", "srcs", "..data", "...", ".x"}
 var nameIDs = map[string]uint64{".": 0, ".gitignore": 1}
 
 func init() {
@@ -519,7 +540,7 @@ func coqNode(n *Node) string {
 		}
 		return fmt.Sprintf("(Df %d %s %s %s %s)", nameID(n.Name), cf.List(items), cf.Bool(n.FOpen), ra, cf.Bool(n.FStat))
 	}
-	kind := map[string]string{"reg": "Reg", "sym": "Sym"}[n.Kind]
+	kind := map[string]string{"reg": "Reg", "sym": "Sym", "symdir": "Sym"}[n.Kind]
 	if n.Kind == "special" {
 		b := n.Bits
 		if b == 0 {
@@ -757,6 +778,9 @@ func coqCase(c *Case) string {
 		if !x.Panic {
 			pk := make([]string, len(x.Pkgs))
 			for j, p := range x.Pkgs {
+				if x.SharedLocs {
+					p.Locs = x.Pkgs[0].Locs
+				}
 				pk[j] = coqPkg(p)
 			}
 			res = fmt.Sprintf("XRes %s %s", cf.List(pk), cf.Bool(x.Err))
@@ -771,6 +795,10 @@ func coqCase(c *Case) string {
 	if c.Glob != nil {
 		g := glob.MustCompile(*c.Glob)
 		gl = "(Some " + dirMatchTable(c, g.Match) + ")"
+	}
+	abs := "None"
+	if c.StoreAbs && len(c.Roots) == 1 && !c.OnDisk {
+		abs = "(Some " + cf.Str(vroot) + ")"
 	}
 	cancel := "NoCancel"
 	switch c.Cancel.Kind {
@@ -788,8 +816,8 @@ func coqCase(c *Case) string {
 		dets[i] = fmt.Sprintf("(%s, %s)", cf.Str(d.Name), coqFindings(d.Findings))
 	}
 	return fmt.Sprintf("{| w_roots := %s; w_exts := %s; w_req := %s; w_statreq := %s; w_xt := %s; w_pat := %s; w_skip := %s; w_re := %s; w_glob := %s; "+
-		"w_gi := %s; w_isd := %s; w_paths := %s; w_sym := %s; w_maxi := %s; w_maxs := %s; w_fatal := %s; w_cancel := %s; w_dets := %s; w_group := %d;\n     w_obs := %s |}",
+		"w_gi := %s; w_isd := %s; w_paths := %s; w_sym := %s; w_maxi := %s; w_maxs := %s; w_fatal := %s; w_abs := %s; w_cancel := %s; w_dets := %s; w_group := %d;\n     w_obs := %s |}",
 		cf.List(roots), cf.List(exts), cf.List(req), cf.List(sr), cf.List(xt), cf.List(patTable(c)), coqPaths(c.SkipList), re, gl,
 		cf.Bool(c.Gitignore), cf.Bool(c.IgnoreSub), coqPaths(c.Paths), cf.Bool(c.Symlinks), cf.Z(int64(c.MaxInodes)),
-		cf.Z(int64(c.MaxSize)), cf.Bool(c.Fatal), cancel, cf.List(dets), c.Group, coqObs(&c.Obs))
+		cf.Z(int64(c.MaxSize)), cf.Bool(c.Fatal), abs, cancel, cf.List(dets), c.Group, coqObs(&c.Obs))
 }
